@@ -2,7 +2,7 @@
    Only theorem statements here; proofs are in Proofs.v.  Byte strings are lists of N with
    every element < 256 (bytes_ok) and a length that fits `unsigned int`. *)
 From OlaBase Require Import Bytes.
-From C05 Require Import Gen Model Proofs Ext Proofs2 Proofs3.
+From C05 Require Import Gen Model Proofs Ext Proofs2 Proofs3 Ser Proofs4.
 Local Open Scope N_scope.
 
 (* Side obligations tying the regenerated constants to the numbers the property and the model's
@@ -473,6 +473,69 @@ Proof.
 Qed.
 Print Assumptions c05_reply_keeps_frame.
 
+(* ---- third extension round ------------------------------------------------------------------ *)
+
+(* RequiredSize, Pack(command, buffer, size) and Write(command, IOStack) -- each modelled on its own in
+   Ser.v with the uint16_t checksum accumulation of the C++ -- produce, for every command and every
+   OverrideOptions, exactly the bytes of Pack(command, ByteString): the buffer variant refuses iff
+   the buffer is too small (else reports the bytes used), the IOStack variant puts the frame in front
+   of what the stack already holds, RequiredSize is the frame length (0 = does not serialise).  Hence
+   every round-trip / acceptance theorem about `pack` holds for the output of each serialiser. *)
+Theorem c05_serialisers_agree : forall o c size stack,
+  required_size c = (match pack_o o c with Some b => len b | None => 0 end) /\
+  pack_buffer o c size =
+    (match pack_o o c with
+     | Some b => if size <? len b then None else Some (b, len b)
+     | None => None end) /\
+  write_iostack o c stack =
+    (match pack_o o c with Some b => (true, b ++ stack) | None => (false, stack) end) /\
+  (forall l s, s < 65536 -> cksum16 s l = (s + sum_bytes l) mod 65536).
+Proof.
+  intros o c size stack.
+  split; [exact (required_size_pack o c)|].
+  split; [exact (pack_buffer_spec o c size)|].
+  split; [exact (write_iostack_spec o c stack)|].
+  intros l s Hs. exact (cksum16_u16 l s Hs).
+Qed.
+Print Assumptions c05_serialisers_agree.
+
+(* RDMRequest::OverrideOptions::SetMessageLength(m), for EVERY m (default sub-start code, any
+   checksum option): the header fields and parameter data still decode to c; a message length below
+   24 or beyond the checksum position (24 + parameter length) makes every decoder report
+   RDM_PACKET_LENGTH_MISMATCH; in between, the decoders compare the two bytes at m-1, m with the
+   additive checksum of the first m-1 bytes: RDM_CHECKSUM_INCORRECT unless they happen to agree, in
+   which case the request is accepted as the very same command c (m = 24 + parameter length with the
+   default checksum is the ordinary frame, c05_override_options). *)
+Theorem c05_override_message_length : forall o c m bs rq,
+  wf_cmd c = true -> o_ssc o = SUB_START_CODE -> o_ml o = Some m -> m < 256 ->
+  pack_o o c = Some bs ->
+  fields bs = Some c /\
+  (m < HEADER_SIZE + 1 \/ HEADER_SIZE + 1 + len (c_data c) < m ->
+     inflate_request bs = Reject RDM_PACKET_LENGTH_MISMATCH /\
+     inflate_disc_request bs = Reject RDM_PACKET_LENGTH_MISMATCH /\
+     inflate_disc_response bs = Reject RDM_PACKET_LENGTH_MISMATCH /\
+     inflate_response rq bs = Reject RDM_PACKET_LENGTH_MISMATCH) /\
+  (HEADER_SIZE + 1 <= m <= HEADER_SIZE + 1 + len (c_data c) ->
+     exists hi lo, rd bs (m - 1) = Some hi /\ rd bs m = Some lo /\
+       if join16 hi lo =? u16 (START_CODE + sum_bytes (take (m - 1) bs))
+       then inflate_request bs = (if is_request_cc (c_cc c) then Ok c else Reject NOSTATUS) /\
+            inflate_disc_request bs = (if c_cc c =? DISCOVER_COMMAND then Ok c else Reject NOSTATUS)
+       else inflate_request bs = Reject RDM_CHECKSUM_INCORRECT /\
+            inflate_disc_request bs = Reject RDM_CHECKSUM_INCORRECT).
+Proof. exact pack_o_ml_decoders. Qed.
+Print Assumptions c05_override_message_length.
+
+(* Constructors given a NULL data pointer (with fix 02 applied to RDMCommand::SetParamData): whatever
+   length is claimed, the command holds an empty parameter block, is a constructible command and
+   serialises to the 25-byte frame (so the round-trip theorems apply to it). *)
+Theorem c05_null_param_data : forall c n,
+  wf_cmd c = true ->
+  set_param_data None n = [] /\
+  wf_cmd (with_data c (set_param_data None n)) = true /\
+  exists bs, pack (with_data c (set_param_data None n)) = Some bs /\ len bs = 25.
+Proof. exact null_data_constructible. Qed.
+Print Assumptions c05_null_param_data.
+
 (* ---- non-vacuity: concrete instances meeting the hypotheses *)
 Definition ex_cmd : cmd :=
   {| c_dst := 0x7a7000000001; c_src := 0x00010000002a; c_tn := 7; c_port := 1; c_mc := 0;
@@ -542,3 +605,17 @@ Example ex_combine :
   Some {| c_dst := 0x00010000002a; c_src := 0x7a7000000001; c_tn := 9; c_port := 0; c_mc := 0;
           c_sub := 0; c_cc := 33; c_pid := 0x00f0; c_data := [1; 1] |}.
 Proof. reflexivity. Qed.
+
+(* third extension round examples *)
+Example ex_write_iostack :
+  match pack ex_cmd with
+  | Some bs => write_iostack default_opts ex_cmd [170] = (true, bs ++ [170]) /\
+               pack_buffer default_opts ex_cmd 28 = Some (bs, 28) /\ pack_buffer default_opts ex_cmd 27 = None
+  | None => False end.
+Proof. vm_compute. repeat split; reflexivity. Qed.
+Example ex_override_ml :
+  match pack_o {| o_ssc := 1; o_ml := Some 23; o_ck := None |} ex_cmd,
+        pack_o {| o_ssc := 1; o_ml := Some 25; o_ck := None |} ex_cmd with
+  | Some a, Some b => inflate a = Reject RDM_PACKET_LENGTH_MISMATCH /\ inflate b = Reject RDM_CHECKSUM_INCORRECT
+  | _, _ => False end.
+Proof. vm_compute. split; reflexivity. Qed.
